@@ -2,6 +2,7 @@ package main
 
 import (
 	"fmt"
+	"go/constant"
 	"go/token"
 	"go/types"
 	"os"
@@ -488,7 +489,17 @@ func (fx *FnExec) loopHeader(b *ssa.BasicBlock, li *loopInfo, edges []inEdge) er
 		fx.assume(fx.wellTyped(v, &fx.cur))
 		if p.Comment == "rangeindex" && len(v.L) == 1 {
 			// the hidden index of a range loop starts at -1 and only grows
-			fx.assume(sLe("(- 1)", v.L[0]))
+			fx.assume(sAnd(sLe("(- 1)", v.L[0]), sLt(v.L[0], "9223372036854775807")))
+			// i < len: the value carried round the back edge is i+1, which passed the test i+1 < len
+			for _, in := range b.Instrs {
+				if cmp, ok := in.(*ssa.BinOp); ok && cmp.Op == token.LSS {
+					if add, ok := cmp.X.(*ssa.BinOp); ok && add.Op == token.ADD && add.X == ssa.Value(p) {
+						if lv, ok := fx.vals[cmp.Y]; ok && len(lv.L) == 1 {
+							fx.assume(sLt(v.L[0], lv.L[0]))
+						}
+					}
+				}
+			}
 		}
 	}
 	// implicit invariant: outside the function's modifies set nothing has changed since entry
@@ -648,6 +659,20 @@ func (fx *FnExec) instr(in ssa.Instruction) error {
 		return nil
 	case *ssa.Alloc:
 		et := elemOf(x.Type())
+		if arr, ok := arrayLocal(x); ok {
+			base := fx.localBase(x)
+			for k := int64(0); k < arr.Len(); k++ {
+				eb := fmt.Sprintf("%s#%d", base, k)
+				for _, l := range fx.e.leaves(arr.Elem()) {
+					n := localLeafName(eb, l.Path)
+					fx.e.heapSort[n] = l.Sort
+					fx.localNames[n] = true
+				}
+				fx.store(&fx.cur, Val{T: types.NewPointer(arr.Elem()), Loc: &Loc{Kind: LLocal, Local: eb, LocalT: arr.Elem()}}, fx.zeroVal(arr.Elem()))
+			}
+			fx.set(x, Val{T: x.Type(), Loc: &Loc{Kind: LLocal, Local: base, LocalT: et}})
+			return nil
+		}
 		if nonEscaping(x, 0) {
 			base := fx.localBase(x)
 			for _, l := range fx.e.leaves(et) {
@@ -662,7 +687,9 @@ func (fx *FnExec) instr(in ssa.Instruction) error {
 		}
 		r := fx.alloc(&fx.cur)
 		pv := Val{T: x.Type(), L: []string{r}}
+		fx.zeroInit = true
 		fx.store(&fx.cur, pv, fx.zeroVal(et))
+		fx.zeroInit = false
 		fx.set(x, pv)
 	case *ssa.FieldAddr:
 		base := fx.val(x.X)
@@ -703,7 +730,15 @@ func (fx *FnExec) instr(in ssa.Instruction) error {
 		if p.Loc == nil {
 			fx.nilCheck(p, x.Pos(), "store through pointer")
 		}
-		fx.store(&fx.cur, p, fx.plain(fx.val(x.Val)))
+		sv := fx.plain(fx.val(x.Val))
+		if p.Loc == nil || p.Loc.Kind != LLocal {
+			if t, err := fx.typeInvFact(sv, &fx.cur); err != nil {
+				return err
+			} else if t != tTrue {
+				fx.oblige("typeinv", "", sImp(sNot(fx.isNil(sv)), t), "representation invariant holds when a pointer to the object is stored in the heap", x.Pos())
+			}
+		}
+		fx.store(&fx.cur, p, sv)
 	case *ssa.Phi:
 		return fmt.Errorf("phi not at block start")
 	case *ssa.Call:
@@ -773,6 +808,16 @@ func (fx *FnExec) instr(in ssa.Instruction) error {
 			fx.oblige("idx", "", sAnd(sLe("0", iv.one()), sLt(iv.one(), sv.L[1])), "index in range", x.Pos())
 			svc := sv
 			fx.set(x, Val{T: x.Type(), Loc: &Loc{Kind: LElem, Slice: &svc, Idx: iv.one(), ElemT: elemOf(x.X.Type())}})
+		} else if sv.Loc != nil && sv.Loc.Kind == LLocal {
+			// element of a local array
+			if c, ok := x.Index.(*ssa.Const); ok {
+				k, _ := constant.Int64Val(c.Value)
+				fx.set(x, Val{T: x.Type(), Loc: &Loc{Kind: LLocal, Local: fmt.Sprintf("%s#%d", sv.Loc.Local, k), LocalT: elemOf(x.Type())}})
+				return nil
+			}
+			fx.abstract("variable index into a local array")
+			r := fx.alloc(&fx.cur)
+			fx.set(x, Val{T: x.Type(), L: []string{r}})
 		} else {
 			if a, ok := x.X.(*ssa.Alloc); !ok || a.Comment != "varargs" {
 				fx.abstract("index address of array pointer")
@@ -997,6 +1042,10 @@ func (fx *FnExec) unop(x *ssa.UnOp) error {
 		r := fx.load(&fx.cur, v)
 		r.T = x.Type()
 		fx.assume(fx.wellTyped(r, &fx.cur))
+		if v.Loc == nil || v.Loc.Kind != LLocal {
+			// objects reachable from the heap satisfy their representation invariant
+			fx.assumeTypeInvOf(r, tTrue)
+		}
 		fx.set(x, r)
 	case token.NOT:
 		fx.set(x, Val{T: x.Type(), L: []string{sNot(v.one())}})
@@ -1311,6 +1360,23 @@ func (fx *FnExec) sliceOp(x *ssa.Slice) error {
 		}
 		fx.set(x, out)
 	default:
+		if v.Loc != nil && v.Loc.Kind == LLocal {
+			if arr, ok := under(v.Loc.LocalT).(*types.Array); ok && x.Low == nil && x.High == nil {
+				et := arr.Elem()
+				out := Val{T: x.Type(), L: []string{tFalse, intLit(arr.Len())}}
+				ls := fx.e.leaves(et)
+				for j, l := range ls {
+					term := zeroOfSort(arraySort("Int", l.Sort))
+					for k := int64(0); k < arr.Len(); k++ {
+						ev := fx.load(&fx.cur, Val{T: types.NewPointer(et), Loc: &Loc{Kind: LLocal, Local: fmt.Sprintf("%s#%d", v.Loc.Local, k), LocalT: et}})
+						term = sSto(term, intLit(k), ev.L[j])
+					}
+					out.L = append(out.L, term)
+				}
+				fx.set(x, out)
+				return nil
+			}
+		}
 		if a, ok := x.X.(*ssa.Alloc); !ok || a.Comment != "varargs" {
 			fx.abstract("slice of array pointer")
 		}
